@@ -921,6 +921,21 @@ def gen_boundary_tasks(ctx):
         t["rsvd_seed"] = ctx.rng.randrange(2 ** 31)
         tasks.append(t)
         ctx.count(f"boundary:svd-switch:n={n}:len={k}:{opts.get('svd', 'auto')}")
+    # (6) registers wider than the usual sizes (n = 9, 10, 11), where container iteration order, index widths and register
+    #     bookkeeping can first go wrong: Schmidt rank 2 across the partition in use keeps the encoders small, the partition
+    #     runs over the default one, interleaved ones, one-qubit ones and ones whose complement holds the top qubit(s)
+    wide = [(9, None), (9, [0, 2, 4, 6, 7]), (9, [1, 3, 5, 8]), (9, [8]), (9, [0, 1, 2, 3, 4, 5, 6, 7]), (9, [4, 5, 6, 7, 8]),
+            (9, [0, 1, 2, 3]), (10, None), (10, [0, 3, 5, 7, 9]), (10, [8, 9]), (10, [1, 2, 4, 5, 6]), (11, None),
+            (11, [0, 2, 4, 6, 8, 10])]
+    for n, part0 in wide:
+        part = sorted(part0) if part0 is not None else default_partition(n)
+        k = len(part)
+        u = _haar_cols(r, 2 ** (n - k), 2)
+        w = _haar_cols(r, 2 ** k, 2)
+        v = _clean(ref_undo(n, (u * np.array([1.0, 0.6])) @ w.T, part))
+        opts = None if part0 is None else {"partition": list(part0)}
+        tasks.append(make_task("LowRankInitialize", opts, n, "wide-rank2", ",".join(map(str, part)), v))
+        ctx.count(f"boundary:wide-register:n={n}:len={k}:top-in-{'partition' if n - 1 in part else 'complement'}")
     return tasks
 
 
